@@ -163,6 +163,7 @@ def apply_geometric_augmentation(
                 p=affine_p,
                 keepdim=True,
                 same_on_batch=True,
+                align_corners=True,
             )
         )
 
@@ -415,6 +416,7 @@ class KorniaAugmenter(IterDataPipe):
                     p=self.affine_p,
                     keepdim=True,
                     same_on_batch=True,
+                    align_corners=True,
                 )
             )
         if self.uniform_noise_p > 0:
